@@ -1,12 +1,15 @@
-(* Soundness of the contract inference (model M10, coq/model/Infer.v) for functions whose values are all "plain"
-   (nilnessOf reads them off the value itself or off the table, without following operands):
+(* Soundness of the contract inference (model M10, coq/model/Infer.v):
    whenever the validated inference (infer_checked) says contract(nonnil -> nonnil), every execution of the abstract
    SSA function that reaches a `return r` with a non-nil contracted parameter returns a non-nil r.
 
    The semantics of the abstract SSA form is the one nilaway's own notion of nilness induces:
      - an environment gives every value "is nil now";
-     - the constant nil is nil, allocations / addresses / closures / makes / append(x, e...) are non-nil, anything else
-       (calls, loads, field reads, ...) can be either -- the environment is arbitrary there (envok);
+     - the constant nil is nil, allocations / addresses / closures / makes / append(x, e...) are non-nil, a wrapper
+       (ChangeInterface, MakeInterface -- nilaway takes an interface holding a nil pointer for nil --, Slice, append(x),
+       SliceToArrayPointer to a zero-length array) is nil exactly if its operand is, append(x, s...) is non-nil if x is,
+       anything else (calls, loads, field reads, ...) can be either -- the environment is arbitrary there (envok);
+       "wrapper in step with its operand" is exact for `semiplain` functions (operand computed in the same block, or
+       never computed by an instruction), and otherwise an idealisation (see envok);
      - taking the edge p -> b out of `if x == y`: on the equal edge x and y are both nil or both non-nil (two nil values
        are equal, a nil value never equals a non-nil one); on the not-equal edge they are not both nil;
      - entering b, the phis of b take -- in parallel -- the values their operand on that edge had, the other
@@ -115,58 +118,58 @@ Qed.
 
 Section Fn.
   Variable F : ifn.
-  Hypothesis Hplain : plain F = true.
   Hypothesis Hwf : wf_fn F = true.
 
+  (* what every state of an execution satisfies: the intrinsic nilness of constants and allocations, and wrapper values
+     in step with their operand (exact for `semiplain` functions, where the operand is computed in the same block or
+     never; otherwise an idealisation that SSA dominance justifies: a wrapper is only used where it is in step) *)
   Definition envok (e : env) : Prop :=
     forall v, match kind_of F v with
               | IVNil => e v = true
               | IVNonNil => e v = false
-              | IVAppendN _ true => e v = false
+              | IVChg x | IVMk x | IVSlice x | IVAppend1 x => e v = e x
+              | IVS2AP x lenpos => if lenpos then e v = false else e v = e x
+              | IVAppendN x lit => if lit then e v = false else (e x = false -> e v = false)
               | _ => True
               end.
 
-  Lemma plain_kind_of v : plain_kind (kind_of F v) = true.
+  Lemma nilness_of_sound fuel : forall t e v, envok e -> holds t e -> agrees (nilness_of F fuel t v) (e v).
   Proof.
-    unfold kind_of. destruct (Nat.lt_ge_cases v (length (if_vals F))) as [L|L].
-    - unfold plain in Hplain. rewrite forallb_forall in Hplain. apply Hplain. now apply nth_In.
-    - now rewrite nth_overflow.
-  Qed.
-
-  Lemma nof_plain t v :
-    nof F t v = match kind_of F v with
-                | IVNil => NNil
-                | IVNonNil | IVAppendN _ _ => NNon
-                | IVConstUnk => NUnk
-                | _ => match tget t v with Some x => x | None => NUnk end
-                end.
-  Proof.
-    pose proof (plain_kind_of v) as P. unfold nof, nvals. simpl.
-    destruct (kind_of F v); simpl in P; try discriminate; try reflexivity.
-    now rewrite P.
-  Qed.
-
-  Lemma exp_plain t v n :
-    exp F t v n = match tget t v with Some _ => t | None => tset t v n end.
-  Proof.
-    pose proof (plain_kind_of v) as P. unfold exp, nvals. simpl.
-    destruct (tget t v); [reflexivity|].
-    destruct (kind_of F v); simpl in P; try discriminate; reflexivity.
+    induction fuel as [|f IH]; intros t e v E H; simpl; auto.
+    assert (LK : agrees (match tget t v with Some x => x | None => NUnk end) (e v)).
+    { destruct (tget t v) eqn:G; simpl; auto. apply tget_in in G. exact (H _ _ G). }
+    pose proof (E v) as Ev.
+    destruct (kind_of F v) as [| | | |x|x|x|x lp|x|x lit|edges|] eqn:K; simpl; auto;
+      try (pose proof (IH t e x E H) as Ax; destruct (nilness_of F f t x); simpl in *; auto; congruence).
+    - (* SliceToArrayPointer *)
+      pose proof (IH t e x E H) as Ax. destruct lp.
+      + destruct (nilness_of F f t x); simpl; auto.
+      + destruct (nilness_of F f t x); simpl in *; auto; congruence.
+    - (* append(x, ...) *)
+      destruct lit; [exact Ev|].
+      pose proof (IH t e x E H) as Ax. destruct (nilness_of F f t x); simpl in *; auto.
   Qed.
 
   Lemma nof_sound t e v : envok e -> holds t e -> agrees (nof F t v) (e v).
+  Proof. apply nilness_of_sound. Qed.
+
+  Lemma expand_sound fuel : forall t v n e, envok e -> sorted t -> holds t e -> agrees n (e v) ->
+    sorted (expand F fuel t v n) /\ holds (expand F fuel t v n) e.
   Proof.
-    intros E H. rewrite nof_plain. pose proof (E v) as Ev. pose proof (plain_kind_of v) as P.
-    destruct (kind_of F v) eqn:K; simpl in *; auto;
-      try (destruct (tget t v) eqn:G; simpl; auto; apply tget_in in G; exact (H _ _ G)).
-    now rewrite P in Ev.
+    induction fuel as [|f IH]; intros t v n e E S H A; simpl; auto.
+    destruct (tget t v) eqn:G; auto.
+    assert (S1 : sorted (tset t v n)) by now apply tset_spec.
+    assert (H1 : holds (tset t v n) e) by now apply holds_tset.
+    pose proof (E v) as Ev.
+    destruct (kind_of F v) as [| | | |x|x|x|x lp|x|x lit|edges|] eqn:K; auto;
+      apply IH; auto; rewrite <- Ev; exact A.
   Qed.
 
-  Lemma exp_sorted t v n : sorted t -> sorted (exp F t v n).
-  Proof. intros S. rewrite exp_plain. destruct (tget t v); auto. now apply tset_spec. Qed.
+  Lemma exp_sorted t v n e : envok e -> sorted t -> holds t e -> agrees n (e v) -> sorted (exp F t v n).
+  Proof. intros. now apply (expand_sound (nvals F) t v n e). Qed.
 
-  Lemma exp_holds t v n e : sorted t -> holds t e -> agrees n (e v) -> holds (exp F t v n) e.
-  Proof. intros S H A. rewrite exp_plain. destruct (tget t v); auto. now apply holds_tset. Qed.
+  Lemma exp_holds t v n e : envok e -> sorted t -> holds t e -> agrees n (e v) -> holds (exp F t v n) e.
+  Proof. intros. now apply (expand_sound (nvals F) t v n e). Qed.
 
   Lemma add_all_sound l t e : sorted t -> holds t e -> holds l e ->
     sorted (add_all t l) /\ holds (add_all t l) e.
@@ -225,7 +228,7 @@ Section Fn.
     fold (eq_succ p iseq). fold (ne_succ p iseq).
     pose proof (nof_sound t e x E H) as Ax. pose proof (nof_sound t e y E H) as Ay.
     assert (One : forall v n, agrees n (e v) -> sorted (exp F [] v n) /\ holds (exp F [] v n) e).
-    { intros v n A; split; [apply exp_sorted; constructor|apply exp_holds; [constructor|apply holds_nil|exact A]]. }
+    { intros v n A. apply (expand_sound (nvals F) [] v n e); auto using holds_nil. constructor. }
     assert (Nil : sorted [] /\ holds [] e) by (split; [constructor|apply holds_nil]).
     destruct Ed as [[-> Exy]|[-> Nb]].
     - (* the equal edge *)
@@ -261,13 +264,13 @@ Section Fn.
     { intros pc I. unfold phi_cands in I. apply in_map_iff in I. destruct I as (phi & <- & I). simpl.
       destruct (kind_of F phi) eqn:K; simpl; auto.
       rewrite (Ph _ _ I K). now apply nof_sound. }
-    revert C S2 H1. generalize (phi_cands F b idx t) t1. clear - Hplain.
+    revert C S2 H1. generalize (phi_cands F b idx t) t1. clear - E'.
     induction l as [|[phi n] l IH]; simpl; intros t1 C S H; [auto|].
+    pose proof (C (phi, n) (or_introl eq_refl)) as A; simpl in A.
     apply IH.
     - intros pc I; apply C; now right.
-    - destruct n; auto using exp_sorted.
-    - pose proof (C (phi, n) (or_introl eq_refl)) as A; simpl in A.
-      destruct n; auto using exp_holds.
+    - destruct n; auto; eapply exp_sorted; eauto.
+    - destruct n; auto; eapply exp_holds; eauto.
   Qed.
 
   (* ---------- executions ---------- *)
@@ -398,7 +401,7 @@ Section Fn.
   Theorem infer_checked_sound fuel : infer_checked F fuel = true ->
     forall b e r, reach b e -> ib_ret (block F b) = Some r -> e (if_param F) = false -> e r = false.
   Proof.
-    unfold infer_checked. rewrite Hplain, Hwf. simpl.
+    unfold infer_checked. rewrite Hwf. simpl.
     destruct (derive F []) eqn:D0.
     - intros _. now apply derive_sound with (sets0 := []); [apply covers_nothing|].
     - destruct (loop F fuel _ _) as [| |s]; try discriminate.
@@ -416,13 +419,13 @@ Section Fn.
   Qed.
 End Fn.
 
-(* the hypotheses plain / wf_fn are part of infer_checked itself *)
+(* the hypothesis wf_fn is part of infer_checked itself *)
 Theorem infer_checked_is_sound F fuel : infer_checked F fuel = true ->
   forall b e r, reach F b e -> ib_ret (block F b) = Some r -> e (if_param F) = false -> e r = false.
 Proof.
-  intros H. assert (P : plain F = true /\ wf_fn F = true).
-  { unfold infer_checked in H. destruct (plain F), (wf_fn F); simpl in H; try discriminate; auto. }
-  destruct P. now apply infer_checked_sound with fuel.
+  intros H. assert (P : wf_fn F = true).
+  { unfold infer_checked in H. destruct (wf_fn F); simpl in H; try discriminate; auto. }
+  now apply infer_checked_sound with fuel.
 Qed.
 
 (* ---------- non-vacuity ---------- *)
@@ -452,6 +455,15 @@ Definition ex_loop : ifn :=
                    blk [0; 3] [3; 4] [2] [3] None None;
                    blk [2] [2] [] [] None None;
                    blk [2] [] [] [] None (Some 2)] |}.
+
+(* func f(p *T) I { if p == nil { return nil }; return p }: the returned value is MakeInterface p *)
+Definition ex_iface : ifn :=
+  {| if_param := 0; if_vals := [IVParam; IVNil; IVMk 0];
+     if_blocks := [blk [] [1; 2] [] [] (Some (true, 0, 1)) None; blk [0] [] [] [] None (Some 1); blk [0] [] [] [2] None (Some 2)] |}.
+
+Example infer_wrapper_example :
+  infer_checked ex_iface 100 = true /\ infer ex_iface 100 = IInferred /\ plain ex_iface = false /\ semiplain ex_iface = true.
+Proof. vm_compute. repeat split. Qed.
 
 Example infer_checked_examples :
   infer_checked ex_guard 100 = true /\ infer ex_guard 100 = IInferred /\
